@@ -206,12 +206,12 @@ class FA:
         return " -> ".join(f"L{n.lineno}" if n.kind not in ("entry", "exit", "raise") else n.kind for n in p)
 
     # ---------------------------------------------------------------- data flow
-    def expand(self, expr):
+    def expand(self, expr, keep=()):
         ns = self.cfg_nodes(expr)
-        return self.rd.expand(expr, ns[0])
+        return self.rd.expand(expr, ns[0], keep=keep)
 
-    def expanded_text(self, expr):
-        return unparse(self.expand(expr))
+    def expanded_text(self, expr, keep=()):
+        return unparse(self.expand(expr, keep))
 
     def sources(self, expr):
         ns = self.cfg_nodes(expr)
